@@ -203,7 +203,7 @@ impl Worksheet {
                 width,
                 custom_width,
                 style: None,
-                hidden: false,
+                hidden: cols[index].hidden,
             };
             let post = Col {
                 min: column + 1,
@@ -217,7 +217,7 @@ impl Worksheet {
             if column != max {
                 cols.insert(index, post);
             }
-            if custom_width {
+            if custom_width || col.hidden {
                 cols.insert(index, col);
             }
             if column != min {
